@@ -109,7 +109,9 @@ TARGET_KINDS = ["first_call", "first_resolve", "miss_call", "register",
                 "rebuild_after_fix",
                 # the same with a method that is rejected by argument analysis (conflicting names)
                 # instead of while it is being adapted
-                "invalidk_first", "invalidk_rebuild"]
+                "invalidk_first", "invalidk_rebuild",
+                # first use of a plain (non-linkback) copy: building it is also what locks the parent
+                "copy_first_call"]
 
 
 def fixed_family(name, tkind):
@@ -152,7 +154,10 @@ def make_family(spec, regs, corpus, tkind, label, pos=0):
         spec["methods"]["mtop"] = {
             "params": [[p[0], p[1], ["o"], p[3]] for p in proto["params"]],
             "prio": 9, "body": ["leaf"]}
-    if tkind == "first_call":
+    if tkind == "copy_first_call":
+        fam["target"] = {"op": "call", "c": c0}
+        fam["copy"] = True
+    elif tkind == "first_call":
         fam["target"] = {"op": "call", "c": c0}
     elif tkind == "first_resolve":
         fam["target"] = {"op": "call", "c": {"args": c0["args"], "kind": "resolve"}}
@@ -252,6 +257,8 @@ def seeded_family(seed, index):
 
 def _target_thunk(h, fam):
     t = fam["target"]
+    if fam.get("copy"):
+        return lambda: h.w.call("c", t["c"])
     if fam["tkind"] == "first_bound":
         return lambda: h.w.call("f", {"args": t["c"]["args"], "kind": "bound"})
     return lambda: h.apply(t)
@@ -292,6 +299,10 @@ def setup(fam):
     h = Harness(fam["spec"], fam["regs"])
     for op in fam["pre"]:
         h.apply(op)
+    if fam.get("copy"):
+        c = h.ov.copy()
+        c.rename("c", "c")
+        h.w.funcs["c"] = c
     if fam.get("child"):
         # a linked child (copy with linkback) that is already built: every rebuild of f also
         # rebuilds it, so the fault can strike inside the child's rebuild
@@ -381,6 +392,30 @@ def execute(scen):
     before, after = sets_of(fam)
     stats = {"fired": 1 if fired else 0}
     violation = None
+    if fam.get("copy"):
+        # the copy must behave as its parent's method set; then either the parent refuses a change
+        # (the copy is in use) or the copy shows it
+        ref = ref_outcomes(spec, before, corpus, key)
+        cp = [h.w.call("c", c) for c in corpus]
+        v = None
+        if cp != ref:
+            i = next(i for i, (a, b) in enumerate(zip(cp, ref)) if a != b)
+            v = {"clause": "after-fault: the copy differs from a fresh function built from its parent's methods",
+                 "probe_index": i, "probe": cp[i], "expected": ref[i], "symptom": symptom(cp[i], ref[i])}
+        else:
+            r = h.apply({"op": "register", "mid": "mtop"})
+            cp = [h.w.call("c", c) for c in corpus]
+            want = ref if r[0] != "ok" else ref_outcomes(spec, before + [["mtop", None]], corpus, key)
+            if cp != want:
+                i = next(i for i, (a, b) in enumerate(zip(cp, want)) if a != b)
+                v = {"clause": "after-fault: the parent of a copy in use accepted a change the copy does not show",
+                     "probe_index": i, "probe": cp[i], "expected": want[i], "register_result": r,
+                     "symptom": symptom(cp[i], want[i]) + ":copy"}
+        if v is not None:
+            v.update({"tkind": fam["tkind"], "fault": fault, "target_outcome": target_out,
+                      "crash_func": (sim.crash_fired or "").rsplit(":", 1)[0] if sim.crash_fired else None})
+        return {"violation": v, "digest": sim.digest ^ stable_hash([target_out, cp]), "stats": stats,
+                "fired": fired, "crash_fired": sim.crash_fired, "steps": nsteps}
     probes = h.probes(corpus)
 
     def viol(clause, **detail):
@@ -580,7 +615,7 @@ def jobs(tier, seed):
                 if name == "multi" and tk not in ("first_call", "miss_call", "register", "invalid_first",
                                                     "invalidk_rebuild"):
                     continue
-                if name != "chain" and tk == "first_resolve":
+                if name != "chain" and tk in ("first_resolve", "copy_first_call"):
                     continue
                 for part in range(stride):
                     yield {"kind": "fixed", "name": name, "tkind": tk, "tier": tier,
